@@ -177,3 +177,89 @@ def env_args(env, defaults=None):
 
 
 MUT_CH = list("()\"' =<>!~andorint_x.\t") + ["\n", "\\", "\x00", "\r", "é", ";"]
+
+
+# ---------------------------------------------------------------- additions (improvement round: audit C07 / C09)
+# non-ASCII characters that Python's Unicode-aware \w / \b treat as word characters (the model's is_word is ASCII-only): upper-case
+# e-acute, long s (lower() -> 's'), Arabic-Indic digit one, Kelvin sign (lower() -> 'k'), fullwidth digit one, Greek capital sigma
+UNI_WORD = ["É", "ſ", "١", "K", "１", "Σ", "é"]
+KEYWORDS = ["and", "or", "in", "not"] + sorted(set(VARS) | {a for v in ALT.values() for a in v}, key=len, reverse=True)
+
+
+def unicode_adjacent(rng, s):
+    """s with one non-ASCII word character inserted directly before or after an occurrence of a keyword / variable name
+    (or, rarely, anywhere): with a Unicode-aware \\b the keyword no longer stands alone"""
+    spots = []
+    for kw in KEYWORDS:
+        i = s.find(kw)
+        while i >= 0:
+            spots += [i, i + len(kw)]
+            i = s.find(kw, i + 1)
+    if not spots or rng.random() < 0.1: spots = list(range(len(s) + 1))
+    i = rng.choice(spots)
+    # inside a quoted literal (which may be compared with extra) only characters whose str.lower() the name model covers:
+    # canonicalize_name on other non-ASCII upper-case letters is a declared assumption of the checks
+    q = None
+    for c in s[:i]:
+        if q: q = None if c == q else q
+        elif c in "'\"": q = c
+    pool = [u for u in UNI_WORD if u.lower() == u or u == "\u212a"] if q else UNI_WORD
+    return s[:i] + rng.choice(pool) + s[i:]
+
+
+def deep_texts(rng, n):
+    """well-formed markers of nesting depth n (n pairs of parentheses on one path), with the value they must have under
+    os_name = 'b': redundant parentheses, right-nested 'and (' / 'or (' chains, left-nested chains, and a zig-zag"""
+    a_t, a_f = 'os_name == "b"', 'os_name == "a"'
+    out = []
+    core = rng.choice([a_t, a_f])
+    out.append(("(" * n + core + ")" * n, core == a_t))
+    # right-nested: A op (A op (... core))
+    op = rng.choice(["and", "or"])
+    lead = rng.choice([a_t, a_f])
+    val = core == a_t
+    for _ in range(n): val = (lead == a_t and val) if op == "and" else (lead == a_t or val)
+    out.append(((lead + " " + op + " (") * n + core + ")" * n, val))
+    # left-nested: (((core) op A) op A) ...
+    val = core == a_t
+    for _ in range(n): val = (val and lead == a_t) if op == "and" else (val or lead == a_t)
+    out.append(("(" * n + core + (") " + op + " " + lead) * n, val))
+    # alternating and/or with doubled parentheses every other level
+    s, val = core, core == a_t
+    for k in range(n // 2):
+        if k % 2: s, val = "((" + s + " or " + a_f + "))", val or False
+        else: s, val = "((" + a_t + " and " + s + "))", True and val
+    out.append((s, val))
+    return out
+
+
+def extra_at_depth(rng, depth):
+    """a formula whose innermost group (depth parentheses down) holds comparisons with extra on either side"""
+    nm = rng.choice([n for n in NAMEISH if n]) if rng.random() < 0.7 else rand_lit(rng)
+    if "'" in nm and '"' in nm: nm = "foo"
+    inner = [("atom", ("var", "extra"), rng.choice(["==", "!=", "in", "not in", ">=", "==="]), ("lit", nm)) if rng.random() < 0.5
+             else ("atom", ("lit", nm), rng.choice(["==", "!=", "in", "not in"]), ("var", "extra"))]
+    if rng.random() < 0.5: inner.append(rand_atom(rng))
+    f = ("or", [("and", inner)]) if rng.random() < 0.5 else ("or", [("and", [x]) for x in inner])
+    for _ in range(depth):
+        prims = [("paren", f)]
+        if rng.random() < 0.6: prims.insert(rng.randrange(2), rand_atom(rng))
+        f = ("or", [("and", prims)]) if rng.random() < 0.6 else ("or", [("and", [p]) for p in prims])
+    return f
+
+
+# requirement texts up to (not including) the ';' of the marker: name, extras, version clauses (bare / parenthesised), URL (which
+# needs white space before the ';'), with the white space variants the grammar allows
+REQ_PREFIXES = ["pkg", "pkg ", "pkg[a]", "pkg [a, b_c] ", "pkg>=1.0", "pkg >=1.0,<2 ", "pkg (>=1.0)", "pkg ( ==1.0.* , !=1.0.3 ) ", "pkg==1.0+local",
+                "pkg~=2.1", "pkg===foo ", "Foo.Bar-baz [x]>=1a1", "pkg @ https://example.com/p.whl ", "pkg[a] @ file:///tmp/x#sha=1;2 \t",
+                " pkg\t", "p"]
+
+
+def long_expr(rng, n):
+    """a flat formula with n atoms (or-lists / and-lists far longer than rand_expr's 3), a few of them parenthesised sub-formulas"""
+    conjs, cur = [], []
+    for _ in range(n):
+        cur.append(("paren", rand_expr(rng, 0)) if rng.random() < 0.1 else rand_atom(rng))
+        if rng.random() < 0.35: conjs.append(("and", cur)); cur = []
+    if cur: conjs.append(("and", cur))
+    return ("or", conjs)
